@@ -434,7 +434,7 @@ def c01(ck):
     binary = vlib.build_harness()
     thorough = ck.tier == "thorough"
     events = run_pkg(ck, binary, ["--families", "assets,built,mutants,gen", "--n", 60 if thorough else 15,
-                                  "--mutants", 20000 if thorough else 1500, "--gets", "0",
+                                  "--mutants", 60000 if thorough else 1500, "--gets", "0",
                                   "--maxbytes", 400000 if thorough else 65536],
                      own=("C01:",), gen_cfg="Gen_Hdr_thorough.cfg" if thorough else "Gen_Hdr_quick.cfg")
     k = pkg_stats(ck, events)
@@ -458,8 +458,8 @@ def c16(ck):
     binary = vlib.build_harness()
     thorough = ck.tier == "thorough"
     ck.add_tlc(vlib.mc("MC_Layout", "MC_Layout.cfg", ck.scratch, workers=4))
-    events = run_pkg(ck, binary, ["--families", "assets,built,gen,mutants", "--n", 90 if thorough else 24,
-                                  "--mutants", 5000 if thorough else 600, "--gets", "0",
+    events = run_pkg(ck, binary, ["--families", "assets,built,gen,mutants", "--n", 300 if thorough else 24,
+                                  "--mutants", 20000 if thorough else 600, "--gets", "0",
                                   "--maxbytes", 400000 if thorough else 65536],
                      own=("C16:",), gen_cfg="Gen_Hdr_thorough.cfg" if thorough else "Gen_Hdr_quick.cfg")
     pkg_stats(ck, events)
@@ -543,7 +543,7 @@ def c03(ck):
     def to_err(e):
         e["outcome"] = "DigestMismatchError"
     tr = ck.scratch / "c03.ndjson"
-    vlib.run_harness(binary, ["c03", "--out", tr, "--seed", ck.seed, "--cases", cases, "--flips", 40000 if thorough else 2500])
+    vlib.run_harness(binary, ["c03", "--out", tr, "--seed", ck.seed, "--cases", cases, "--flips", 120000 if thorough else 2500])
     events = read_ndjson(tr)
     for e in events:
         if "case_d" in e and e.get("d") != e["case_d"]:
